@@ -109,6 +109,7 @@ func (s *session) delete() error {
 	if err != nil {
 		return err
 	}
+	verifYield("session.delete.listed")
 	// Delete ephemerals
 	var deletes []*proto.DeleteRequest
 	s.log.Debug(
